@@ -124,7 +124,14 @@ def discover_pairs(ctx):
                 def builds(fi):
                     return any(Tracer._callee_last(c) in STREAM_CTORS for c in
                                [n for n in walk(fi.node) if isinstance(n, ast.Call)])
-                if builds(own_s) and builds(own_d):
+                held = {t_.attr for m in ci.methods.values() for a_ in ast.walk(m.node)
+                        if isinstance(a_, ast.Assign) and isinstance(a_.value, ast.Call)
+                        and Tracer._callee_last(a_.value) in STREAM_CTORS
+                        for t_ in a_.targets if isinstance(t_, ast.Attribute)}
+
+                def windows(fi):
+                    return builds(fi) or any(isinstance(n, ast.Attribute) and n.attr in held for n in walk(fi.node))
+                if windows(own_s) and windows(own_d):
                     pairs.append((_label(ci), ci, own_s, own_d, None, None))
     return pairs
 
@@ -1288,6 +1295,101 @@ def r12(ctx):
     ctx.floor("C08.R12", "bare-class specs", n, 5)
 
 
+# ----------------------------------------------------------------------------- R13 / R14: re-entrancy, faults
+
+def r13(ctx):
+    repo = ctx.repo
+    ctx.rule("C08.R13", "stream windows are per call: the writer/reader a (de)serialize path fills or drains is its "
+                        "parameter or built on that path, never an object kept on the spec instance (a spec reached "
+                        "again through its own child - recursive specs - would clear and overwrite the outer call's window)")
+    n = 0
+    for label, ci, s, d, sp, dp in discover_pairs(ctx):
+        for fi, prm in ((s, sp), (d, dp)):
+            t = Tracer(repo, ci, None)
+            t.run(fi, prm)
+            n += 1
+            ctx.ob("C08.R13", f"{label}.{fi.name}: no stream window kept on the spec instance is used", not t.shared_used,
+                   fi.where, f"self.{', self.'.join(sorted(t.shared_used))} is one object for all calls on this spec: "
+                             f"a nested call on the same spec object resets it while the outer call is still using it")
+    ctx.floor("C08.R13", "(de)serialize paths inspected", n, 56)
+
+
+def _is_ctxmanager(fi: FuncInfo) -> bool:
+    return any((ap(d) or "").split(".")[-1] == "contextmanager" for d in fi.node.decorator_list)
+
+
+def _in_cleanup_of_try_around(stmt, anchor) -> bool:
+    """stmt lies in the finally (or a re-raising handler) of a try whose body contains anchor."""
+    cur = stmt
+    while cur is not None:
+        p = parent(cur)
+        if isinstance(p, ast.Try) and any(cur is x for x in p.finalbody):
+            if any(anchor is y for b in p.body for y in ast.walk(b)):
+                return True
+        cur = p
+    return False
+
+
+def r14(ctx):
+    repo = ctx.repo
+    ctx.rule("C08.R14", "scoped stream state is restored on every exit: whatever a scoped_* context manager (or a "
+                        "deserialize path that switches its reader's mode) undoes after the block, it undoes in a "
+                        "`finally` - a failed inner read must not leave the reader in the other pod mode / position")
+    n = 0
+    for f in repo.all_funcs:
+        if f.module.rel not in PAIR_MODULES or f.parent_fn is not None or not _is_ctxmanager(f):
+            continue
+        yields = [x for x in walk(f.node) if isinstance(x, (ast.Yield, ast.YieldFrom))]
+        for y in yields:
+            ystmt = y
+            while not isinstance(ystmt, ast.stmt):
+                ystmt = parent(ystmt)
+            # statements that run after the yield on the normal path
+            after: List[ast.stmt] = []
+            cur = ystmt
+            while cur is not None and cur is not f.node:
+                p = parent(cur)
+                for fld in ("body", "orelse", "finalbody"):
+                    blk = getattr(p, fld, None)
+                    if isinstance(blk, list) and any(cur is x for x in blk):
+                        i = next(i for i, x in enumerate(blk) if x is cur)
+                        after.extend(blk[i + 1:])
+                        if fld == "body" and isinstance(p, ast.Try):
+                            pass            # its finalbody is cleanup by construction
+                cur = p
+            late = [a for a in after if not isinstance(a, (ast.Pass, ast.Return)) and not _in_cleanup_of_try_around(a, y)]
+            n += 1
+            ctx.ob("C08.R14", f"{f.qual}: everything undone after the yield is undone in a finally", not late, ctx.w(f, ystmt),
+                   f"{'; '.join(norm(a) for a in late)} is skipped when the block raises: the stream keeps the "
+                   f"temporary state (pod mode / position / member stack)")
+    ctx.floor("C08.R14", "scoped context managers", n, 3)
+    # mode switches of the caller's reader written out by hand
+    for label, ci, s, d, sp, dp in discover_pairs(ctx):
+        if dp is None:
+            continue
+        from .common import class_methods_reachable
+        for fi in class_methods_reachable(repo, d, depth=2):
+            for st in stores(fi.node, into_defs=True):
+                if st.kind != "assign" or "." not in st.path:
+                    continue
+                recv, attr = st.path.rsplit(".", 1)
+                if recv != dp or fi is not d and recv not in _params(fi):
+                    continue
+                t_ = None
+                cur = st.node
+                while cur is not None:
+                    p = parent(cur)
+                    if isinstance(p, ast.Try) and p.finalbody:
+                        t_ = p
+                        break
+                    cur = p
+                in_final = t_ is not None and any(st.node is x for b in t_.finalbody for x in ast.walk(b))
+                restored = t_ is not None and any(s2.path == st.path for b in t_.finalbody
+                                                  for s2 in stores(ast.Module(body=[b], type_ignores=[]), into_defs=False))
+                ctx.ob("C08.R14", f"{label}.{fi.name}: reader.{attr} changed on the caller's reader is put back in a finally",
+                       in_final or restored, ctx.w(fi, st.node), "the caller's reader stays switched when the read in between raises")
+
+
 def run(ctx):
     r1(ctx)
     r2(ctx)
@@ -1302,6 +1404,8 @@ def run(ctx):
     r10(ctx)
     r11(ctx)
     r12(ctx)
+    r13(ctx)
+    r14(ctx)
     ctx.assume("read(write(v)) == v over generated spec trees and values is not decided statically; branch "
                "conditions of the two directions are not compared (a flipped test is a value-level fault)")
     ctx.assume("comprehension / generator events are placed where the comprehension is written; closures returned "
